@@ -25,3 +25,15 @@ Definition C10_case (c : nat * view * list (res (list N))) : N :=
 
 Definition C10_model (c : nat * view * list (res (list N))) :=
   let '(k, v, outs) := c in match k with 0 => Some (csv_render v) | _ => None end.
+
+(* compact form: the distinct outcomes once, and for every path (in order) the
+   index of its outcome (the harness's indices are in range by construction; an
+   index out of range would read as a panic) *)
+Definition expand (ds : list (res (list N))) (ix : list nat) : list (res (list N)) :=
+  map (fun i => nth i ds Panic) ix.
+
+Definition C10_case2 (c : nat * view * list (res (list N)) * list nat) : N :=
+  let '(k, v, ds, ix) := c in C10_case (k, v, expand ds ix).
+
+Definition C10_model2 (c : nat * view * list (res (list N)) * list nat) :=
+  let '(k, v, ds, ix) := c in C10_model (k, v, expand ds ix).
